@@ -38,9 +38,9 @@ class Result:
         entry = {"clause": clause, "what": what, "case": case, "replay": replay}
         for f in self.findings:
             if f["clause"] == clause and f["match"](entry):
-                self.known.append((f, entry))
+                self.known.append((f, _public(entry)))
                 return
-        self.failures.append(entry)
+        self.failures.append(_public(entry))
 
     def to_json(self):
         return {
@@ -52,6 +52,14 @@ class Result:
             "known_ids": sorted({f["id"] for f, _ in self.known}),
             "samples": self.samples, "wall_s": round(time.time() - self.t0, 2),
         }
+
+
+def _public(entry):
+    """drop the raw objects (keys starting with '_') that known-finding predicates use"""
+    e = dict(entry)
+    if isinstance(e.get("case"), dict):
+        e["case"] = {k: v for k, v in e["case"].items() if not k.startswith("_")}
+    return e
 
 
 def load_findings(prop):
